@@ -14,8 +14,8 @@ import (
 
 var ghostBuiltins = map[string]bool{
 	"requires": true, "ensures": true, "ensuresGoal": true, "assert": true, "assume": true, "imp": true, "iff": true, "old": true,
-	"forall": true, "exists": true, "modifiesTail": true, "modifiesElems": true, "modifiesPtr": true, "modifiesAll": true,
-	"freshSlice": true, "sameBase": true, "sameArray": true, "suffixOf": true, "viewOf": true, "disjointFromTail": true, "bytesEq": true, "strBytesEq": true, "allocated": true, "unchangedElems": true,
+	"forall": true, "exists": true, "forallIn": true, "existsIn": true, "modifiesTail": true, "modifiesElems": true, "modifiesPtr": true, "modifiesAll": true,
+	"freshSlice": true, "sameBase": true, "sameArray": true, "suffixOf": true, "viewOf": true, "offsetIn": true, "disjointFromTail": true, "bytesEq": true, "strBytesEq": true, "allocated": true, "unchangedElems": true,
 	"covers": true,
 }
 
@@ -149,7 +149,7 @@ func (c *VC) evalCall(st *State, call *ast.CallExpr) []*Term {
 		if fi != nil && fi.Ghost && ghostBuiltins[fn.Name()] {
 			return c.ghostBuiltin(st, fn.Name(), call)
 		}
-		if fi != nil && fi.Kind == "spec" && c.isAbstract(fi) {
+		if fi != nil && fi.Kind == "spec" && (c.isAbstract(fi) || fi.Dir.Uninterp) {
 			args, _ := c.evalArgs(st, fn, call)
 			return c.specUFNoAxiom(st, fi, args)
 		}
